@@ -86,8 +86,10 @@ def replay(bin_path, beh_path, obs_path, variants="trait", timeout=1200):
                 last = line
         crashes.append((bid, p.returncode, last))
         frm = bid + 1
-        if len(crashes) > 200:
-            raise ToolError("replayer crashed more than 200 times")
+        if len(crashes) >= 40:
+            # the code under test keeps killing the process: enough evidence; the remaining behaviours are not replayed
+            total["truncated_after_crashes"] = True
+            break
     with open(obs_path, "w") as out:
         for part in parts:
             with open(part) as f:
@@ -205,6 +207,7 @@ def _arena_pipeline_rest(tier, focus, variants, key, t0, thorough, wd, bins, mc,
     # 4. contract evaluation by TLC
     results, parts, d = tlc_obs("ArenaObs", "ArenaObs.cfg", obs, nparts=12, timeout=3000, xmx="6g")
     checked = tagged_int(results, "CHECKED")
+    stats.setdefault("truncated_after_crashes", False)
     if checked != stats["lines"] and not crashes:
         raise ToolError("TLC saw %d records, replayer wrote %d" % (checked, stats["lines"]))
     bad = {p: tagged_index_sets(results, parts, "BAD_" + p) for p in ARENA_PROPS}
@@ -251,7 +254,7 @@ def check_arena_property(pid, tier, focus="general"):
         P = dict(P)
         P["crashes"] = P["crashes"] + F["crashes"]
         P["drift"] = P["drift"] + F["drift"]
-        P["stats"] = {k: P["stats"][k] + F["stats"][k] for k in P["stats"]}
+        P["stats"] = {k: P["stats"][k] + F["stats"][k] for k in ("behaviours", "lines", "skipped")}
         P["checked"] += F["checked"]
         P["nsim"] += F["nsim"]
         P["counters"] = {k: P["counters"][k] + F["counters"].get(k, 0) for k in P["counters"]}
